@@ -516,3 +516,7 @@ func methodsNamed(prog *core.Program, rel, name string) []*ssa.Function {
 	sort.Slice(out, func(i, j int) bool { return out[i].String() < out[j].String() })
 	return out
 }
+
+type ssaFn = ssa.Function
+type ssaMakeClosure = ssa.MakeClosure
+type ssaCallInstr = ssa.CallInstruction
